@@ -6,6 +6,7 @@ C11's per-item exactness composed with C06's leaf agreement: coherent, evaluable
 import PoetryVerif.Proofs.PyConvPoetry
 import PoetryVerif.Proofs.PyConvGpc
 import PoetryVerif.Proofs.MarkerLeafCompat
+import PoetryVerif.Proofs.MarkerProjVars
 set_option linter.unusedSimpArgs false
 set_option linter.unusedVariables false
 
@@ -99,10 +100,35 @@ theorem leafClause_of_comp (E : Env) (X Y Z : Nat) (hE : EnvPy E X Y Z) (l : Lea
 
 /-- the leaf invariant for the marker → range direction: what `_compact_markers` builds (`CompLeaf E`), python
 leaves being of the exact shape -/
-def PyG (E : Env) (l : Leaf) : Prop := CompLeaf E l ∧ PyShaped l
+def PyG (E : Env) (l : Leaf) : Prop := CompLeaf E l ∧ PyShaped l ∧ Canon l
 
 theorem pyG_evaluable (E : Env) (m : M) (h : M.Good (PyG E) m) : M.Evaluable E m :=
   M.good_mono (fun l hl => by obtain ⟨⟨s, _, _, hb⟩, _⟩ := hl; exact hb) m h
+
+mutual
+theorem leaf_name_mem_vars (m : M) : ∀ l ∈ M.leaves m, l.name ∈ M.vars m := by
+  cases m with
+  | any => simp [M.leaves]
+  | empty => simp [M.leaves]
+  | leaf l => simp [M.leaves, M.vars]
+  | multi ms => simpa [M.leaves, M.vars] using leaf_name_mem_varsList ms
+  | union ms => simpa [M.leaves, M.vars] using leaf_name_mem_varsList ms
+theorem leaf_name_mem_varsList (ms : List M) : ∀ l ∈ M.leavesList ms, l.name ∈ M.varsList ms := by
+  cases ms with
+  | nil => simp [M.leavesList]
+  | cons m ms =>
+    intro l hl
+    simp only [M.leavesList, List.mem_append] at hl
+    simp only [M.varsList, List.mem_append]
+    rcases hl with hl | hl
+    · exact Or.inl (leaf_name_mem_vars m l hl)
+    · exact Or.inr (leaf_name_mem_varsList ms l hl)
+end
+
+theorem convKey_of_pyNames {n : String} (h : pyNames.contains n = true) : convKey n = pyKey := by
+  have : n = "python_version" ∨ n = "python_full_version" := by
+    simpa [pyNames, Gen.pythonVersionMarkers] using h
+  rcases this with rfl | rfl <;> decide
 
 /-- **one-sided part against poetry's own evaluation**: if the marker validates to true on the environment of
 `X.Y.Z`, its Python constraint admits `X.Y.Z`. -/
@@ -111,17 +137,20 @@ theorem gpc_upper_validate (E : Env) (X Y Z : Nat) (hE : EnvPy E X Y Z) (S : Lea
     (hv : M.validate E m = .ok true) : g.allowsPlain (pyV X Y Z) = true := by
   rw [M.validate_eq_sem E m (pyG_evaluable E m hg)] at hv
   injection hv with hv
-  exact gpc_upper S X Y Z m g hg (fun l hl hk => leafClause_of_comp E X Y Z hE l hl.1 hl.2 hk) hSp h hv
+  exact gpc_upper S X Y Z m g hg (fun l hl hk => leafClause_of_comp E X Y Z hE l hl.1 hl.2.1 hk) hSp h hv
 
 /-- **exactness against poetry's own evaluation** for python-only markers -/
 theorem gpc_exact_validate (E : Env) (X Y Z : Nat) (hE : EnvPy E X Y Z) (S : LeafSpec (leafEval E) (PyG E))
     (hSp : SplitSound X Y Z) (m : M) (g : VC) (hg : M.Good (PyG E) m)
     (hvars : ∀ n ∈ M.vars m, pyNames.contains n = true)
+    (HR : ReparseNames)
     (hne : ∀ d, dnf defaultFuel [] m = .ok d → d ≠ .empty)
-    (hpy : ∀ d, dnf defaultFuel [] m = .ok d → ∀ l ∈ M.leaves d, convKey l.name = pyKey)
     (h : gpc m = .ok g) : M.validate E m = .ok (g.allowsPlain (pyV X Y Z)) := by
   rw [M.validate_eq_sem E m (pyG_evaluable E m hg)]
   congr 1
-  exact gpc_exact S X Y Z m g hg hvars (fun l hl hk => leafClause_of_comp E X Y Z hE l hl.1 hl.2 hk) hSp hne hpy h
+  refine gpc_exact S X Y Z m g hg hvars (fun l hl hk => leafClause_of_comp E X Y Z hE l hl.1 hl.2.1 hk) hSp hne ?_ h
+  intro d hd l hl
+  have hv := dnf_vars HR S (fun l hl => hl.2.2) _ _ m d hg hd l.name (leaf_name_mem_vars d l hl)
+  exact convKey_of_pyNames (hvars _ hv)
 
 end Poetry.Marker
